@@ -5,6 +5,11 @@ HERE = os.path.dirname(os.path.dirname(os.path.abspath(__file__)))
 ALL = ["C%02d" % i for i in range(1, 21)]
 
 CLAIMED = {
+    "C15": dict(
+        text="Theorems for every well-formed mutation space, member sequence and oracle stream of random draws: localized keeps exactly the choices meeting the window; all_variants is duplicate-free, is exactly the product of the multi-variant choices, starts with the current sequence and differs from it only inside the span; apply_random_mutations changes exactly min(n, #multi-choices) choices, each to a different allowed variant, and stays in the space; constrain_sequence lands in the space, touches only choices that did not hold, is idempotent and then draws nothing; size = product, 0 exactly when there is no multi-variant choice. Model tied to MutationSpace/MutationChoice by vm_compute correspondence on generated spaces with recorded numpy draws (requests and answers compared).",
+        note="Trusted: numpy RandomState is an oracle (only its outputs are used; the model logs every request and the log is compared with the recorded one); Python set iteration is modelled by lists and sorting happens where the code sorts; float exp/log of space_size compared with 1e-9 relative tolerance in the harness.",
+        technique="Coq proof (invariants over the partition index, product enumeration, oracle-stream bookkeeping) + vm_compute correspondence with recorded random draws",
+        design="6/C15"),
     "C11": dict(
         text="Theorems: the overlap-aware scanning loop returns exactly the matching positions in order (for every fixed-size pattern, every sequence); strand +1 gives exactly the forward occurrences inside the location, strand -1 exactly the reverse-complement occurrences with mirrored coordinates, strand 0 both; for palindromic IUPAC words and for direct repeats reverse occurrences coincide with forward ones, so reporting once loses nothing; regex classes restricted to ACGT equal the IUPAC sets (regenerated csv tables). Model tied to SequencePattern.from_string(...).find_matches by vm_compute correspondence, with an independent double-loop oracle.",
         note="Trusted: the `re` engine is modelled as 'leftmost position where the fixed-size pattern matches' (first_match); enzyme site strings are Biopython data; general regexes / PSSM patterns are outside the model.",
